@@ -55,6 +55,10 @@ def prove_extra(chk, prop_rel):
 ALPHA = b'abcdefghijklmnopqrstuvwxyz0123456789\n\r \xc3\xa9\x00\xff'
 
 
+def rbytes_ascii(rng, n):
+    return bytes(rng.choice(b'abcdefghijklmnopqrstuvwxyz0123456789\n ') for _ in range(n))
+
+
 def rbytes(rng, n):
     return bytes(rng.choice(ALPHA) for _ in range(n))
 
@@ -201,17 +205,22 @@ def run_part(chk, workdir):
         # a large append (several output buffers) and many small ones
         plan.append((b'', [[('append', rbytes(rng, 9000))], [('append', b'x')]], 1024))
         for idx, (initial, steps, head) in enumerate(plan):
-            which = idx % 2
-            url, logpath = (('/logtail/g:p', os.path.join(bed.workdir, 'p.log')) if which == 0 else
-                            ('/mainlogtail', os.path.join(bed.workdir, 'main.log')))
+            which = idx % 4
+            errlog = os.path.join(bed.workdir, 'p.err.log')
+            bed.tb.proc.config.stderr_logfile = errlog
+            url, logpath = [('/logtail/g:p', os.path.join(bed.workdir, 'p.log')),
+                            ('/mainlogtail', os.path.join(bed.workdir, 'main.log')),
+                            ('/logtail/g:p/stderr', errlog),
+                            ('/logtail/g%3Ap/stdout', os.path.join(bed.workdir, 'p.log'))][which]
             if steps and steps[0] == []:
                 steps = steps[1:]
             try:
-                headb, bursts, states = bed.stream(url, logpath, initial, steps)
+                headb, bursts, states = bed.stream(url, logpath, initial, steps, inet=(idx % 3 == 2))
+                count('stream-socket:' + ('inet' if idx % 3 == 2 else 'unix'))
             except OSError:
                 count('stream:skipped')
                 continue
-            count('stream:' + url.split('/')[1])
+            count('stream:' + url.split('/')[1] + ('-stderr' if url.endswith('stderr') else '-pct' if '%' in url else ''))
             if not headb.startswith(b'HTTP/1.1 200') or b'Transfer-Encoding: chunked' not in headb:
                 chk.violation({'kind': 'tail response is not a chunked 200', 'head': headb.decode('latin-1'),
                                'url': url})
@@ -407,6 +416,9 @@ def run_part(chk, workdir):
 
     # ---- 3d. the log RPCs for channels WITHOUT a readable log (file-system oracle)
     rf_read, rf_tail, rf_clear = _rpc_worlds(chk, os.path.join(wd, 'rpcw'), count, distinct)
+
+    # ---- 3e. supervisorctl tail against a REAL daemon (RPC read with a negative offset; tail -f over /logtail)
+    _ctl_tail_probe(chk, os.path.join(wd, 'daemon'), count)
 
     # ---- 4. hex
     hex_cases = ['(%s, %s)' % (zlit(n), bytes_lit(b'%x' % n)) for n in
@@ -678,7 +690,99 @@ def _rpc_worlds(chk, wd, count, distinct):
                                            'name': name, 'answer': repr(r), 'expected': repr(want),
                                            'log_configuration': world})
                 w.removelogs_error = False
+    # --- the log changes BETWEEN calls (grows, is removed and re-created, truncated): every
+    #     call must answer for the file as it is at that moment; tail offsets are chained
+    #     the way supervisorctl/web clients do (next offset = the one just returned)
+    rng = chk.rng
+    path = os.path.join(wd, 'seq.log')
+    w.options.logfile = None
+    w.pconfig.stderr_logfile = None
+    w.pconfig.stdout_logfile = path
+    for seq in range(12 if chk.tier == 'quick' else 150):
+        cur = rbytes_ascii(rng, rng.choice([0, 3, 30]))
+        with open(path, 'wb') as f:
+            f.write(cur)
+        off = 0
+        for stepi in range(6):
+            k = rng.random()
+            if k < 0.5:
+                add = rbytes_ascii(rng, rng.choice([1, 5, 40]))
+                with open(path, 'ab') as f:
+                    f.write(add)
+                cur += add
+                opk = 'append'
+            elif k < 0.65:
+                os.remove(path)
+                cur = rbytes_ascii(rng, rng.choice([0, 4]))
+                with open(path, 'wb') as f:
+                    f.write(cur)
+                opk = 'clear'
+            elif k < 0.8:
+                cur = cur[:rng.choice([0, 1, 5])]
+                os.truncate(path, len(cur))
+                opk = 'truncate'
+            elif k < 0.9:
+                os.remove(path)
+                cur = None
+                opk = 'remove'
+            else:
+                opk = 'nothing'
+            ln = rng.choice([1, 5, 20, 100])
+            r = both('supervisor.tailProcessStdoutLog', ('g:p', off, ln), 'stdout log after ' + opk)
+            count('rpcfs:between-calls:' + opk)
+            if r is not None and r[0] == 'value':
+                tail_cases.append('(true, %s, %s, %s, %s, (TValue %s %s %s))' % (
+                    zlit(0 if cur is None else 2), bytes_lit(cur or b''), zlit(off), zlit(ln),
+                    bytes_lit(r[1][0].encode('utf-8')), zlit(r[1][1]), 'true' if r[1][2] else 'false'))
+                tail_meta.append({'sequence': seq, 'step': stepi, 'op': opk, 'offset': off, 'length': ln,
+                                  'content': None if cur is None else list(cur), 'answer': repr(r)})
+                off = r[1][1]
+            ro, rl = rng.choice([(0, 0), (-5, 0), (2, 4), (off, 0)])
+            r = both('supervisor.readProcessStdoutLog', ('g:p', ro, rl), 'stdout log after ' + opk)
+            if r is not None:
+                t = read_term(r)
+                if t is not None:
+                    read_cases.append('(true, %s, %s, %s, %s, %s)' % (zlit(0 if cur is None else 2), bytes_lit(cur or b''),
+                                                                     zlit(ro), zlit(rl), t))
+                    read_meta.append({'sequence': seq, 'step': stepi, 'op': opk, 'offset': ro, 'length': rl,
+                                      'content': None if cur is None else list(cur), 'answer': repr(r)})
+            if cur is None:
+                cur = b''
+                with open(path, 'wb') as f:
+                    pass
     return (read_cases, read_meta), (tail_cases, tail_meta), (clear_cases, clear_meta)
+
+
+def _ctl_tail_probe(chk, dwd, count):
+    import c17_daemon as D
+    d = D.Daemon(dwd)
+    try:
+        if not d.start() or not d.wait_log():
+            chk.note('real-daemon supervisorctl tail probe skipped: supervisord did not come up in this environment')
+            count('daemon:unavailable')
+            return
+        log = D.LOG_LINES
+        for args, want in ((['tail', '-12', 'echo'], log[-12:] + b'\n'), (['tail', 'echo'], log + b'\n'),
+                           (['tail', '-5', 'echo', 'stdout'], log[-5:] + b'\n'), (['tail', 'echo', 'stderr'], b'\n'),
+                           (['tail', 'nosuch'], None)):
+            rc, out = d.ctl(args)
+            count('daemon:ctl-tail')
+            if want is None:
+                ok = b'no such process' in out.lower() or b'ERROR' in out
+            else:
+                ok = out == want
+            if not ok:
+                chk.violation({'kind': 'PROPERTY VIOLATED (real daemon): supervisorctl tail printed something other than the '
+                               'requested bytes of the log', 'args': args, 'output': list(out), 'expected': None if want is None else list(want),
+                               'log': list(log)})
+        rc, out = d.ctl(['tail', '-f', 'echo'], kill_after=1.5)
+        count('daemon:ctl-tail-f')
+        banner = b'==> Press Ctrl-C to exit <==\n'
+        if not (out.startswith(banner) and out[len(banner):] == log):
+            chk.violation({'kind': 'PROPERTY VIOLATED (real daemon): supervisorctl tail -f did not print the initial tail of the log',
+                           'output': list(out), 'log': list(log)})
+    finally:
+        d.stop()
 
 
 def _first_diff(a, b):
